@@ -217,6 +217,8 @@ DEFAULTS = [
     {"t": "tuple", "v": [{"t": "list", "v": [1]}, {"t": "list", "v": []}]}, {"t": "tuple", "v": [{"t": "dict", "v": [["a", {"t": "list", "v": []}]]}]},
     {"t": "set", "v": [1, 2]}, {"t": "list", "v": [{"t": "set", "v": [1]}]}, {"t": "dict", "v": [["s", {"t": "set", "v": []}], ["t", {"t": "tuple", "v": [{"t": "list", "v": []}]}]]},
     {"t": "list", "v": [{"t": "tuple", "v": [{"t": "list", "v": [{"t": "list", "v": []}]}]}]},
+    {"t": "pair", "v": [1, {"t": "list", "v": [2]}]}, {"t": "list", "v": [{"t": "pair", "v": [{"t": "list", "v": []}, {"t": "dict", "v": []}]}]},
+    {"t": "dict", "v": [["p", {"t": "pair", "v": [1, 2]}]]},
 ]
 FORMS = ["attr", "field_default", "factory", "func_default", "param_default", "param_factory", "force_default"]
 BASES = ["schema", "dataclass", "deco"]
@@ -308,11 +310,14 @@ def run_b(case):
         det = {"form": form, "base": base}
         r1 = oracle.outcome(get)
         r2 = oracle.outcome(get)
+        # the slot is untyped (Rule = any value): a copy of the declared default is all that may arrive
         if r1[0] != "ok" or r2[0] != "ok":
-            return {"status": "other", "fails": []}
+            bad = r1 if r1[0] != "ok" else r2
+            e = bad[1] if len(bad) > 1 else None
+            return {"status": "other", "fails": [(f"default-not-delivered/{type(e).__name__ if isinstance(e, BaseException) else bad[0]}/{form}", dict(det, error=str(e)[:200]))]}
         v1, v2 = r1[1], r2[1]
         if not oracle.equal(v1, pristine) or not oracle.equal(v2, pristine):
-            return {"status": "default-converted", "fails": []}
+            return {"status": "default-converted", "fails": [(f"default-copy-differs-from-the-declared-default/{form}", dict(det, got=codec.encode(v1), declared=dvs))]}
         sets = {"first": mutables_in(v1), "second": mutables_in(v2)}
         if form not in ("factory", "param_factory"):
             sets["declared"] = mutables_in(D)
